@@ -1,7 +1,7 @@
 (* C04 — property theorems only (every proof is `exact <lemma>` or a closed computation). *)
 From Coq Require Import List NArith ZArith Bool.
 Import ListNotations.
-From VF Require Import C04.Model C04.Inst C04.Proofs C04.ProofsDer C04.ProofsSvc C04.ProofsAead gen.Gen_C04.
+From VF Require Import C04.Model C04.Inst C04.Proofs C04.ProofsDer C04.ProofsSvc C04.ProofsAead C04.ProofsKs gen.Gen_C04.
 Local Open Scope N_scope.
 
 (* ===== codecs (all inputs) ===== *)
@@ -221,6 +221,52 @@ Theorem pkv_appended_byte_asis_refuted :
 Proof. vm_compute. repeat split. Qed.
 Print Assumptions pkv_appended_byte_asis_refuted.
 
+(* ===== MACs and signatures through keysets with several keys (after one or more rotations) ===== *)
+(* a MAC computed with ANY key of the keyset - e.g. the primary before later rotations - verifies with the keyset *)
+Theorem mac_roundtrip_multi :
+  forall (core_mac : N -> bytes -> bytes), (forall k d, core_mac k d <> []) ->
+  forall (ks : list skey) (k : skey) (d : bytes), In k ks -> svc_verify_mac core_mac ks (svc_mac core_mac k d) d = true.
+Proof. exact mac_roundtrip_multi_l. Qed.
+Print Assumptions mac_roundtrip_multi.
+
+Theorem mac_accepts_only_produced_multi :
+  forall (core_mac : N -> bytes -> bytes) (ks : list skey) (tag d : bytes),
+  svc_verify_mac core_mac ks tag d = true -> exists k, In k ks /\ tag = svc_mac core_mac k d.
+Proof. exact mac_accepts_only_produced_multi_l. Qed.
+Print Assumptions mac_accepts_only_produced_multi.
+
+(* a signature made with ANY key of a keyset verifies with the keyset's public handle (any prefix types) *)
+Theorem sig_roundtrip_multi :
+  forall (msg : Type) (core_sign : N -> msg -> N -> sval) (core_verify : N -> msg -> sval -> bool),
+  (forall k m rd, core_verify k m (core_sign k m rd) = true) ->
+  forall (ks : list skey) (k : skey) (m : msg) (rd : N) (b : bytes),
+  In k ks -> enc_sig (s_enc k) (core_sign (s_mat k) m rd) = Some b -> b <> [] ->
+  dec_sig (s_enc k) b = Some (core_sign (s_mat k) m rd) ->
+  svc_sign core_sign k m rd = Some (sprefix k ++ b) /\ svc_verify core_verify ks (sprefix k ++ b) m = true.
+Proof. intros msg cs cv Hc. exact (sig_roundtrip_multi_l msg cs cv Hc). Qed.
+Print Assumptions sig_roundtrip_multi.
+
+(* ===== BBS+ multi-message signatures (SignMulti / VerifyMulti): every message is bound to its position ===== *)
+(* `gens_distinct gen n bound`: the generators the key derivation yields for positions 0..n-1 (h0, h_1, ...) are
+   pairwise distinct group elements - the visible hypothesis about the derivation, checked on the REAL generators on
+   every run.  For ANY number of messages: the genuine vector is accepted, any other vector is rejected, in
+   particular one with two different messages exchanged (any two positions, e.g. i and i+256). *)
+Theorem bbs_genuine_accepted : forall (gen : nat -> nat) (bound : nat) (v : list Z), bbs_accepts gen bound v v = true.
+Proof. exact commit_refl. Qed.
+Print Assumptions bbs_genuine_accepted.
+
+Theorem bbs_other_messages_rejected : forall (gen : nat -> nat) (bound : nat) (signed presented : list Z),
+  gens_distinct gen (length signed) bound -> presented <> signed -> bbs_accepts gen bound signed presented = false.
+Proof. exact bbs_other_rejected_l. Qed.
+Print Assumptions bbs_other_messages_rejected.
+
+Theorem bbs_swap_rejected : forall (gen : nat -> nat) (bound : nat) (signed : list Z) (i j : nat),
+  gens_distinct gen (length signed) bound -> (i < length signed)%nat -> (j < length signed)%nat ->
+  nth i signed 0%Z <> nth j signed 0%Z ->
+  bbs_accepts gen bound signed (swap i j signed) = false.
+Proof. exact bbs_swap_rejected_l. Qed.
+Print Assumptions bbs_swap_rejected.
+
 (* ===== non-vacuity ===== *)
 Example p1363_leading_zero_66 :
   let r := 5 in let s := 256 ^ 65 + 9 in
@@ -294,4 +340,26 @@ Example aead_mixed_rotation :
       svc_decrypt inst_dec all c2 [8] m2 = None
   | _, _, _ => False
   end.
+Proof. vm_compute. repeat split. Qed.
+
+(* the distinctness hypothesis is necessary: with a derivation that only uses the low byte of the position
+   (generators repeat every 256 positions) exchanging the messages at positions 1 and 257 goes unnoticed; with the
+   identity derivation it is rejected, and the hypothesis holds for it *)
+Example bbs_distinctness_needed :
+  let v := map Z.of_nat (seq 100 300) in
+  bbs_accepts (fun i => Nat.modulo i 256) 300 v (swap 1 257 v) = true /\
+  bbs_accepts (fun i => i) 300 v (swap 1 257 v) = false /\
+  bbs_accepts (fun i => i) 300 v (swap 3 4 v) = false /\ swap 1 257 v <> v.
+Proof. vm_compute. repeat split. discriminate. Qed.
+
+Example gens_distinct_identity : forall n, gens_distinct (fun i => i) n n.
+Proof. intro n. split; auto. Qed.
+
+Example mac_rotation_nonvacuous :
+  let k0 := {| s_id := 1111; s_pt := PTink; s_mat := 1; s_enc := EncOpaque |} in
+  let k1 := {| s_id := 2222; s_pt := PTink; s_mat := 2; s_enc := EncOpaque |} in
+  svc_verify_mac inst_mac [k0; k1] (svc_mac inst_mac k0 [3]) [3] = true /\
+  svc_verify_mac inst_mac [k0; k1] (svc_mac inst_mac k1 [3]) [3] = true /\
+  svc_verify_mac inst_mac [k1] (svc_mac inst_mac k0 [3]) [3] = false /\
+  svc_verify_mac inst_mac [k0; k1] (svc_mac inst_mac k0 [3]) [4] = false.
 Proof. vm_compute. repeat split. Qed.
